@@ -628,7 +628,7 @@ fn dhw_fragile(r: &Value, margin: f64) -> bool {
 fn json_mismatch_with_slack(a: &Value, b: &Value, sc: &Scale, slack: f64) -> Option<String> {
     let f = worldp::json_max_factor(a).max(worldp::json_max_factor(b));
     let area = if sc.area > 0.0 { sc.area } else { 1.0 };
-    let tol = sc.c_abs() * EPS * sc.e_an.max(sc.n_an) * f + 0.0011 + slack * f;
+    let tol = sc.c_abs() * EPS * sc.e_an.max(sc.n_an) * f + 0.0011 + 4.0 * slack * f; // 4: see cmp.rs (Cls::W)
     // by-service weighted energies: amplification |W_carrier| / epus_carrier (see cmp::compare)
     let mut amp = 0.0f64;
     if slack > 0.0 {
